@@ -141,8 +141,8 @@ type cmp struct {
 	x2e  map[*schema.X]*yang.Entry
 	// counters of what was actually compared
 	Nodes, Leaves, Lookups int
-	Attrs, IfFs            int
-	subOwner               string // while walking a submodule's own tree: the module it belongs to
+	Attrs, IfFs, Held      int
+	subOwner               string         // while walking a submodule's own tree: the module it belongs to
 	Special                map[string]int // leaves whose type chain ends in an enumeration, leafref, decimal64, union
 }
 
@@ -545,6 +545,59 @@ func (c *cmp) findChecks(rng *rand.Rand, res *schema.Resolver, pairs int) {
 	}
 }
 
+// heldTree: the caller keeps the trees it has, the set is processed again (which builds
+// new trees), and lookups on the held trees go on. An absolute path into the start
+// node's own module must stay inside the held tree: it returns that tree's node, not
+// its twin in the tree built since.
+func (c *cmp) heldTree(rng *rand.Rand, ms *yang.Modules) {
+	if errs := ms.Process(); len(errs) > 0 {
+		return
+	}
+	var all []*schema.X
+	for x := range c.x2e {
+		if x.Parent != nil {
+			all = append(all, x)
+		}
+	}
+	sort.Slice(all, func(i, j int) bool { return all[i].Path() < all[j].Path() })
+	for k := 0; k < 20 && len(all) > 0; k++ {
+		a, b := all[rng.Intn(len(all))], all[rng.Intn(len(all))]
+		if rootOf(a) != rootOf(b) || a.DefFile == nil || a.DefFile.Module() == nil {
+			continue
+		}
+		// the start node's defining file must belong to the module of the tree (a prefix that
+		// names another module leaves the tree by design)
+		var rm *schema.Mod
+		for m := a.DefFile.Module(); m != nil; m = nil {
+			rm = m
+		}
+		if rm == nil || rm.Name != rootOf(a).Name {
+			continue
+		}
+		ea, eb := c.x2e[a], c.x2e[b]
+		path := ""
+		for _, n := range names(b) {
+			path += "/" + a.DefFile.Prefix + ":" + n
+		}
+		c.Lookups++
+		c.Held++
+		func() {
+			defer func() {
+				if rec := recover(); rec != nil {
+					c.bad(b, "find-panic", "Find(%s) on a held tree: %v", path, rec)
+				}
+			}()
+			if got := ea.Find(path); got != eb {
+				where := "nothing"
+				if got != nil {
+					where = "another object with path " + got.Path()
+				}
+				c.bad(b, "find-leaves-held-tree", "after a second Process, Find(%s) from %s of the tree held since the first returned %s", path, a.Path(), where)
+			}
+		}()
+	}
+}
+
 // implicitIO looks up the input and output of every rpc and action, written or not
 // (Find creates an absent one on demand): the node returned must belong to that very rpc
 // or action - its Parent, its Path and the way back through ".." - also when the rpc or
@@ -753,6 +806,9 @@ func Run(j *job.Job, s *job.Sink) {
 				c.findChecks(rng, res, 60)
 				c.implicitIO()
 			}
+			if len(c.out) == 0 && j.Property == "C17" && i%4 == 0 {
+				c.heldTree(rng, ms)
+			}
 		}()
 		s.Count("nodes_compared", int64(c.Nodes))
 		s.Count("statement_attributes_compared", int64(c.Attrs))
@@ -762,6 +818,7 @@ func Run(j *job.Job, s *job.Sink) {
 			s.Count("leaf_types_compared:"+k, int64(v))
 		}
 		s.Count("find_lookups", int64(c.Lookups))
+		s.Count("find_lookups_on_held_trees", int64(c.Held))
 		reported := map[string]bool{}
 		for k := range c.out {
 			d := &c.out[k]
